@@ -319,8 +319,22 @@ def main():
         obligations += obligations_of(r, prop)
     failed_obl = set()
     for r, e in violations + unresolved:
-        failed_obl.add(f"{r.unit}/{e['fn']}")
-    discharged = [o for o in obligations if not any(o.startswith(fo + "/") or o.split("/")[1].endswith("::" + fo.split("/")[1]) and o.startswith(fo.split("/")[0] + "/") for fo in failed_obl)]
+        failed_obl.add((r.unit, e["fn"]))
+    # every failing function of a unit (whatever property its failing clause is tagged with) is not discharged
+    for r in results:
+        if r.status == "failed":
+            for e in r.errors:
+                if not e["canary"]:
+                    failed_obl.add((r.unit, e["fn"]))
+    dead_units = {r.unit for r in results if r.status == "undecided"}
+
+    def is_discharged(o):
+        unit, fn = o.split("/")[0], o.split("/")[1]
+        if unit in dead_units:
+            return False
+        fn = fn.split("::")[-1].replace("lemma ", "")
+        return (unit, fn) not in failed_obl
+    discharged = [o for o in obligations if is_discharged(o)]
     # known findings
     known = [k for k in load_known() if k.startswith("finding:") and f"property={prop} " in k]
     out_lines = []
